@@ -5,6 +5,7 @@ TABLE: by_name insertion only through a vacant entry; DOM: exit propagation befo
 registry removal; PROV of the notices; single consumer loop; gen_server reply;
 link/monitor bookkeeping symmetry.
 """
+import re
 from ..families import describe
 from ..core import callee_of, callee_names, is_call_to, unwrap, receiver_root, root_fields, fold
 
@@ -445,6 +446,33 @@ def run(ctx):
     from ..families import check_sibling_ctors as _sib
     ctx.rule('C18.4-mailbox-constructors', 'Mailbox::new and ::with_capacity differ only in the channel they create', floor=1)
     _sib(ctx, P, 'C18.4-mailbox-constructors', 'edp_node::mailbox::Mailbox', ['edp_node::mailbox::Mailbox::new', 'edp_node::mailbox::Mailbox::with_capacity'], {'receiver', 'sender'})
+
+    # "exactly that recipient": the tables are keyed by pid, so what a pid IS (node, id, serial, creation) decides who gets the message
+    ctx.rule('C18.6-recipient-identity', 'equality, hash and order of the identifier types read all their logical fields - creation included (rule C10.3-logical-fields re-run): '
+             'a pid of an earlier incarnation of the node (same id and serial, other creation) must not resolve to a live process', floor=9)
+    from ..order import SubCtx as _SubRI
+    from . import c10 as _c10ri
+    _c10ri.run(_SubRI(ctx, 'C18.6-recipient-identity', 'c10', allow=('C10.3-logical-fields',)))
+
+    # a failing handler is the handler's problem: it is removed, the manager lives on and goes on answering
+    ctx.rule('C18.5-handler-failure-contained', 'GenEventManager::notify never propagates the error of a handler callback (init / handle_event / terminate) with `?`: the error would leave handle_message, '
+             'end the manager process and leave every queued $gen_call and the pending sync_notify unanswered', floor=0)
+    n_hf = 0
+    for q in sorted(ctx.F.bodies):
+        if not ('GenEventManager' in q and q.split('::{')[0].endswith('::notify')):
+            continue
+        GB = P.B(q)
+        for bb, t in GB.calls():
+            if not (callee_of(t)[0] or '').endswith('Try::branch'):
+                continue
+            o = str(GB.origin(t['args'][0]))
+            if 'GenEventHandler::' in o:
+                n_hf += 1
+                m_ = re.search(r'GenEventHandler::(\w+)', o)
+                ctx.bad('C18.5-handler-failure-contained', 'notify:%s' % (m_.group(1) if m_ else '?'), 'notify propagates the error of the handler callback %s with `?`: one failing handler ends the whole manager, and the calls queued behind the event are never answered'
+                        % (m_.group(1) if m_ else ''), ctx.where(GB, bb), key='ERR:edp_node::gen_event::GenEventManager::notify:propagates-handler-error')
+    if n_hf == 0:
+        ctx.ok('C18.5-handler-failure-contained', 'notify', 'no handler callback error is propagated out of notify')
 
 
 def _param_name(B, base, projs):
